@@ -68,7 +68,13 @@ func NewInterceptedUnsignedTransaction(
 		coordinator: coordinator,
 	}
 
-	err = inUTx.processFields(uTxBuff)
+	// the hash must identify the content, not the particular byte string received:
+	// it is computed over the canonical re-encoding of the decoded value
+	canonicalBuff, err := marshalizer.Marshal(uTx)
+	if err != nil {
+		return nil, err
+	}
+	err = inUTx.processFields(canonicalBuff)
 	if err != nil {
 		return nil, err
 	}
